@@ -204,6 +204,9 @@ func (C11) Generate(c *Ctx, r *Rand, index int) *Scenario {
 	}
 	name := "in." + ext
 	sc.Files = []File{{Name: name, Data: Bytes(data), Mode: 0644}}
+	if rs.Chance(1, 60) {
+		sc.Files[0] = File{Name: name, Dir: true} // a directory where a file is expected
+	}
 	sc.Meta["format"] = fi.Name
 	sc.Meta["damage"] = ds
 
@@ -304,6 +307,7 @@ func (C11) Generate(c *Ctx, r *Rand, index int) *Scenario {
 			rp.ErrAt = int64(rf.Intn(len(data) + 1))
 			rp.Errno = "EIO"
 		}
+
 		sc.Plan.Readers = []ReaderPlan{rp}
 	}
 	if rf.Chance(1, 10) {
